@@ -137,8 +137,8 @@ def patterned_prime(rng, bits, w, dev_bits=32, swap=None):
 
 
 def both_pattern_prime(rng, bits, w):
-  """Repetition of a w-bit word; next prime above (minimal low deviation)."""
-  while True:
+  """Repetition of a w-bit word; nearest prime (minimal low-bit deviation)."""
+  for _ in range(1000):
     word = rng.bits(w) | 1
     v = (repeat_word(word, w, bits) >> rng.below(w)) & ((1 << bits) - 1)
     if v.bit_length() != bits:
@@ -146,9 +146,19 @@ def both_pattern_prime(rng, bits, w):
     c = next_prime(v)
     if c.bit_length() == bits:
       return c
+    c = v | 1
+    while not is_prime(c):      # all-ones style values: search downwards
+      c -= 2
+    if c.bit_length() == bits:
+      return c
+  raise RuntimeError('no patterned prime found')
 
 
 def low_weight_prime(rng, bits, hw, clustered=False):
+  """Prime of `bits` bits with Hamming weight hw (weight is raised by one
+  after 3000 unsuccessful candidates: very low weights may not exist)."""
+  hw = max(hw, 3)
+  tries = 0
   while True:
     v = (1 << (bits - 1)) | 1
     while bin(v).count('1') < hw:
@@ -158,6 +168,9 @@ def low_weight_prime(rng, bits, hw, clustered=False):
         v |= 1 << rng.randint(1, bits - 2)
     if is_prime(v):
       return v
+    tries += 1
+    if tries % 3000 == 0:
+      hw += 1
 
 
 _small_primes = None
